@@ -304,6 +304,7 @@ class PyvcExecutor(StmtMixin, Executor):
                 return m
             if len(vals) == 1:
                 vals = self.iter_concrete(vals[0], st)
+            vals = [self.unwrap_opt(v, st, n) if isinstance(v, Opt) else v for v in vals]
             if all(not is_sym(v) for v in vals):
                 return min(vals) if n == "min" else max(vals)
             if len(vals) == 1 and isinstance(args[0], Seq):
@@ -366,6 +367,8 @@ class PyvcExecutor(StmtMixin, Executor):
             d = dict(args[0]) if args else {}
             d.update(kwargs)
             return d
+        if n == "slice":
+            return slice(*args)
         if n == "enumerate":
             return EnumV(args[0], args[1] if len(args) > 1 else kwargs.get("start", 0))
         if n == "zip":
